@@ -147,6 +147,8 @@ def make_vias(unicode, prefix):
         "client-get-ignore_exc": via_get(cli),
         "pooled-get_many-ignore_exc": via_get_many(pci),
         "client-get_many-ignore_exc": via_get_many(cli),
+        "hash-get_many-ignore_exc": via_get_many(hci),
+        "hash-get_many": via_get_many(hc),
         "client-set-unreachable": via_set_down(cdown),
         "pooled-set-unreachable": via_set_down(pdown),
         "client-key-after-stats-argument": via_after_stats(cl),
@@ -195,7 +197,7 @@ def main(tier, rep):
     VIAS = ["helper", "client", "pooled", "hash-get", "client-delete", "hash-get-ignore_exc", "pooled-delete",
             "client-get-ignore_exc", "pooled-get-ignore_exc", "hash-get-no-server", "hash-get-no-server-ignore_exc",
             "pooled-get_many-ignore_exc", "client-get_many-ignore_exc", "client-set-unreachable", "pooled-set-unreachable",
-            "client-key-after-stats-argument"]
+            "client-key-after-stats-argument", "hash-get_many-ignore_exc", "hash-get_many"]
     n = 0
     for row in table:
         cls = BYTE_CLASS if not row["isstr"] else CP_CLASS
